@@ -892,6 +892,9 @@ def deque_targeted(rng, thorough):
             for t in range(0, n + 1):
                 for op, k in DQ_PRED_OPS:
                     h.emit(op, [built, k, t])
+            for i in range(0, n + 1):          # every cut position through every index-taking constructor
+                for op in ("take", "drop", "taker", "dropr", "splita", "splitb"):
+                    h.emit(op, [built, i])
             if n <= 8:
                 for t in range(n):
                     h.emit("filterp", [built, 3, t]); h.emit("removep", [built, 4, t])
